@@ -216,13 +216,20 @@ def compile_var(spec, flavour, skip, seam):
 def sparse_family(c, skip):
     """Weight x (optional) Width designspace; 'Abar' = [A, _bar]; '_bar' has an extra sparse master."""
     def master(stem, width, bar):
-        return {"glyphs": {
+        m = {"glyphs": {
             ".notdef": {"width": 500},
             "A": {"width": width, "unicodes": [0x41], "contours": [B.box(48, 0, 48 + stem, 704)]},
             "_bar": {"width": width, "contours": [B.box(0, 304, width, 304 + bar)]},
             "Abar": {"width": width, "unicodes": [0x23A], "components": [("A", (1, 0, 0, 1, 0, 0)),
                                                                          ("_bar", (1, 0, 0, 1, 0, 0))]},
         }, "order": [".notdef", "A", "Abar", "_bar"]}
+        if c.get("nested"):
+            # remaining composite -> skipped composite -> skipped glyph (only the innermost one has the
+            # extra sparse master)
+            m["glyphs"]["_wrap"] = {"width": width, "components": [("_bar", (1, 0, 0, 1, 16, 0))]}
+            m["glyphs"]["Abar"]["components"] = [("A", (1, 0, 0, 1, 0, 0)), ("_wrap", (1, 0, 0, 1, 0, 0))]
+            m["order"].append("_wrap")
+        return m
     reg = master(96, 608, 48)
     if c.get("sparse_glyph", "_bar") == "_bar":
         reg["layers"] = {"medium": {"glyphs": {"_bar": {"width": 656, "contours": [B.box(0, 304, 656, 304 + 160)]}}}}
@@ -268,12 +275,14 @@ def run_sparse(c):
 
     def build(skip):
         return O.reload(varLib.build(fn(sparse_family(c, skip), useProductionNames=False))[0])
-    ref, got = build(()), build(("_bar",))
+    skipped = ("_bar", "_wrap") if c.get("nested") else ("_bar",)
+    ref, got = build(()), build(skipped)
     viols = []
     feat = {"flavour": "interp-ttf+varLib", "seam": "dslib", "family": "sparse-skipped-component",
             "locations": c["locations"], "axes": c["axes"], "sparse_holds": c.get("sparse_glyph", "_bar"),
-            "sparse_pos": c["sparse_pos"]}
-    if "_bar" in got.getGlyphOrder() or [g for g in ref.getGlyphOrder() if g != "_bar"] != got.getGlyphOrder():
+            "sparse_pos": c["sparse_pos"], "nested": bool(c.get("nested"))}
+    if set(skipped) & set(got.getGlyphOrder()) or \
+            [g for g in ref.getGlyphOrder() if g not in skipped] != got.getGlyphOrder():
         viols.append(violation("glyph-order", feat, observed=got.getGlyphOrder()))
     locs = [{"wght": 400}, {"wght": 550}, {"wght": 625}, {"wght": 700}]
     if c["axes"] == 2:
@@ -451,6 +460,9 @@ class C13(Property):
                     out.append([{"family": "sparse", "axes": axes, "locations": locations, "sparse_pos": pos,
                                  "sparse_glyph": "A"}])
                 out.append([{"family": "sparse", "axes": axes, "locations": locations, "sparse_pos": "first"}])
+                for pos in ("second", "last"):
+                    out.append([{"family": "sparse", "axes": axes, "locations": locations, "sparse_pos": pos,
+                                 "nested": True}])
         for fn in ("ufos", "ds-ttf", "ds-otf"):
             for n, subsets in ((2, ([0], [1], [0, 1])), (3, ([0], [1], [2], [0, 2], [1, 2]))):
                 for comp_in in subsets:
